@@ -577,6 +577,12 @@ type TargetRef struct {
 	IsErr      bool
 }
 
+// ValidSig reports whether a declaration has a target signature (exported for the harness).
+func ValidSig(d FuncDecl) (bool, []string) { return validSig(d) }
+
+// ExportedName reports whether an identifier is exported.
+func ExportedName(s string) bool { return exportedName(s) }
+
 func validSig(d FuncDecl) (bool, []string) {
 	if d.TParams != "" {
 		return false, nil // cannot be called without instantiation
